@@ -179,7 +179,7 @@ def check(ctx):
                    site=do.loc())
             continue
         dev, uev = next(iter(ds)), next(iter(us))
-        ok, why = _inverse(dev, uev)
+        ok, why = _inverse(dev, uev, v)
         ctx.ob('C03.R1.board-inverse', name, ok,
                'path class %s: per square, undo_move applies the reversed inverses of do_move\'s primitives (%s)' % (name, why),
                site=undo.loc(), detail={'do': [list(e) for e in dev], 'undo': [list(e) for e in uev]})
@@ -478,42 +478,58 @@ def _once_every_path(f, nodes):
 PIECES = {}
 
 
-def _inverse(dev, uev):
-    """per symbolic square: undo ops == reversed inverses of do ops"""
-    def per_square(evs):
-        m = {}
-        for e in evs:
-            if e[0] == 'move_piece':
-                m.setdefault(e[1], []).append(('-', 'moved'))
-                m.setdefault(e[2], []).append(('+', 'moved'))
-            elif e[0] == 'remove_piece':
-                m.setdefault(e[1], []).append(('-', 'x'))
-            elif e[0] == 'add_piece':
-                m.setdefault(e[2], []).append(('+', e[1]))
-        return m
-    d, u = per_square(dev), per_square(uev)
-    if set(d) != set(u):
-        return False, 'squares touched differ: do %s undo %s' % (sorted(d), sorted(u))
-    for s in d:
-        want = [('+' if o == '-' else '-') for o, _ in reversed(d[s])]
-        got = [o for o, _ in u[s]]
-        if want != got:
-            return False, 'square %s: do %s undo %s' % (s, d[s], u[s])
-        # piece identities of the pieces put back, by the role of the square
-        for (o, pc) in u[s]:
-            if o != '+' or pc == 'moved':
-                continue
-            pcn = pc.replace(' ', '')
-            if s == 'from(move);from(move)':
-                if pcn != '%d;%d' % (PIECES['W_PAWN'], PIECES['B_PAWN']):
-                    return False, 'square from(move): re-created piece %s is not the mover\'s pawn' % pc
-            elif s == 'to(move);to(move)':
-                if pcn != '%d;%d' % (PIECES['B_ROOK'], PIECES['W_ROOK']):
-                    return False, 'square to(move): restored piece %s is not the captured piece (of the opponent)' % pc
-            else:
-                if pcn != '%d;%d' % (PIECES['B_PAWN'], PIECES['W_PAWN']):
-                    return False, 'square %s: restored piece %s is not the opponent\'s pawn' % (s, pc)
-    return True, '%d squares' % len(d)
+def _inverse(dev, uev, v=None):
+    """symbolic execution of do_move's and then undo_move's board primitives on the handful of squares the case touches: every
+    square must end up holding what it held before. Squares and pieces are the "white;black" normal forms of the arguments;
+    the initial content is what the case says (the mover on from(move), the victim or nothing on to(move), the enemy pawn
+    behind the e.p. square, king and rook on their castling squares, nothing elsewhere)."""
+    P = PIECES
+    pair = lambda w, b: '%d;%d' % (P[w], P[b])
+    EMPTY = pair('NO_PIECE', 'NO_PIECE')
+    wing, ep, promo, cap = v if v is not None else (None, False, False, False)
+    init = {}
+    if wing:
+        init['4;60'] = pair('W_KING', 'B_KING')
+        init['7;63' if wing == 'K' else '0;56'] = pair('W_ROOK', 'B_ROOK')
+    else:
+        init['from(move);from(move)'] = pair('W_PAWN', 'B_PAWN') if (ep or promo) else pair('W_KNIGHT', 'B_KNIGHT')
+        init['to(move);to(move)'] = pair('B_ROOK', 'W_ROOK') if cap else EMPTY
+        if ep:
+            init['(to(move)-8);(to(move)+8)'] = pair('B_PAWN', 'W_PAWN')
+    st = dict(init)
+
+    def apply(e, who):
+        if e[0] == 'move_piece':
+            a, b_ = e[1], e[2]
+            if st.get(a, EMPTY) == EMPTY:
+                return '%s moves a piece from %s, which is empty at that point' % (who, a)
+            if st.get(b_, EMPTY) != EMPTY:
+                return '%s moves a piece onto %s, which is occupied at that point' % (who, b_)
+            st[b_] = st[a]
+            st[a] = EMPTY
+        elif e[0] == 'remove_piece':
+            if st.get(e[1], EMPTY) == EMPTY:
+                return '%s removes a piece from %s, which is empty at that point' % (who, e[1])
+            st[e[1]] = EMPTY
+        elif e[0] == 'add_piece':
+            if st.get(e[2], EMPTY) != EMPTY:
+                return '%s adds a piece on %s, which is occupied at that point' % (who, e[2])
+            st[e[2]] = e[1].replace(' ', '')
+        else:
+            return 'unknown primitive %s' % e[0]
+        return None
+    for e in dev:
+        r = apply(e, 'do_move')
+        if r:
+            return False, r
+    for e in uev:
+        r = apply(e, 'undo_move')
+        if r:
+            return False, r
+    for sq_ in sorted(set(st) | set(init)):
+        if st.get(sq_, EMPTY) != init.get(sq_, EMPTY):
+            return False, 'square %s held %s before the move and holds %s after taking it back' % (sq_, init.get(sq_, EMPTY), st.get(sq_, EMPTY))
+    return True, '%d squares' % len(st)
 
 
 def _saved_restored(p, dfn, ufn, cm, fld):
